@@ -142,10 +142,14 @@ func askScenarioCh(n int, mode, reply string, second bool, own int, bound int) *
 // selects the sync.Pool policy of the model (0 keeps nothing, 1 LIFO, 2 FIFO) in case the
 // implementation recycles objects between asks.
 func timeoutSeries(lat []string, pool int, bound int) *vsched.Scenario {
+	return timeoutSeriesT(lat, pool, 10*time.Millisecond, bound)
+}
+
+// (timeouts of weeks are "practically forever": the answer comes long before)
+func timeoutSeriesT(lat []string, pool int, timeout time.Duration, bound int) *vsched.Scenario {
 	fam := "timeout-series"
-	const timeout = 10 * time.Millisecond
 	return &vsched.Scenario{
-		Name:     fmt.Sprintf("ask/timeout-series/%v/sync.Pool-policy%d", lat, pool),
+		Name:     fmt.Sprintf("ask/timeout-series/%v/timeout-%v/sync.Pool-policy%d", lat, timeout, pool),
 		Bound:    bound,
 		TimerDev: true,
 		Body: func() {
@@ -354,6 +358,9 @@ func scenarios(tier string) []*vsched.Scenario {
 		for _, lat := range [][]string{{"edge", "now"}, {"now", "edge", "now"}, {"late", "now"}, {"never", "now", "now"}} {
 			out = append(out, timeoutSeries(lat, pool, b))
 		}
+	}
+	for _, days := range []int{24, 25, 30, 40, 45, 365, 106751} { // around the wrap of a 32-bit millisecond count, up to the largest Duration
+		out = append(out, timeoutSeriesT([]string{"now", "now"}, 0, time.Duration(days)*24*time.Hour, 1))
 	}
 	if tier == "thorough" {
 		out = append(out, timeoutSeries([]string{"edge", "edge", "now", "now"}, 1, 3), timeoutSeries([]string{"edge", "late", "edge", "now"}, 2, 3))
